@@ -149,6 +149,54 @@ def iterMutGo (sh : Shape) (len : Nat) : Nat → Nat → Option (List Nat)
 def iterMut (sh : Shape) (len : Nat) : Option (List Nat) :=
   iterMutGo sh len (sh.height * sh.width + 1) 0
 
+/-- `SurfaceIter::position` / `SurfaceMutIter::position`: position of the element yielded next -/
+def iterPosition (sh : Shape) (index : Nat) : Nat × Nat :=
+  match sh.nth index with
+  | some p => p
+  | none => (sh.height, 0)
+
+/-- `SurfacePosIter::next` (`iter().with_position()`): the position is read BEFORE the inner iterator advances -/
+def posIterNext (sh : Shape) (data : List α) (index : Nat) : Nat × Option ((Nat × Nat) × (Nat × α)) :=
+  let pos := iterPosition sh index
+  match iterNth sh data index 0 with
+  | (index', none) => (index', none)
+  | (index', some x) => (index', some (pos, x))
+
+/-- `SurfacePosMutIter::next` (`iter_mut().with_position()`) -/
+def posIterMutNext (sh : Shape) (len : Nat) (index : Nat) : Nat × Option ((Nat × Nat) × Nat) :=
+  let pos := iterPosition sh index
+  match iterMutNth sh len index 0 with
+  | (index', none) => (index', none)
+  | (index', some off) => (index', some (pos, off))
+
+/-- the position iterators do not override `nth`: `Iterator::nth` of std = `next` until the first `None`,
+`n` times, then `next` (this is also what `skip` and `step_by` call) -/
+def posIterNth (sh : Shape) (data : List α) : Nat → Nat → Nat × Option ((Nat × Nat) × (Nat × α))
+  | 0, index => posIterNext sh data index
+  | n + 1, index =>
+    match posIterNext sh data index with
+    | (index', none) => (index', none)
+    | (index', some _) => posIterNth sh data n index'
+
+def posIterMutNth (sh : Shape) (len : Nat) : Nat → Nat → Nat × Option ((Nat × Nat) × Nat)
+  | 0, index => posIterMutNext sh len index
+  | n + 1, index =>
+    match posIterMutNext sh len index with
+    | (index', none) => (index', none)
+    | (index', some _) => posIterMutNth sh len n index'
+
+def posIterNthSeq (sh : Shape) (data : List α) : List Nat → Nat → List (Option ((Nat × Nat) × (Nat × α)))
+  | [], _ => []
+  | k :: ks, index =>
+    let (index', r) := posIterNth sh data k index
+    r :: posIterNthSeq sh data ks index'
+
+def posIterMutNthSeq (sh : Shape) (len : Nat) : List Nat → Nat → List (Option ((Nat × Nat) × Nat))
+  | [], _ => []
+  | k :: ks, index =>
+    let (index', r) := posIterMutNth sh len k index
+    r :: posIterMutNthSeq sh len ks index'
+
 /-- a sequence of `it.nth(k)` calls on one iterator -/
 def iterNthSeq (sh : Shape) (data : List α) : List Nat → Nat → List (Option (Nat × α))
   | [], _ => []
@@ -394,6 +442,19 @@ def run (op : String) (h w extra : Nat) (ops : List Op) (args : List String) : S
     match Proto.natList? ks with
     | none => "bad-op"
     | some ks => joinC ((iterMutNthSeq sh data.length ks 0).map showOff)
+  | "posnth", [ks] =>
+    -- skips are small here: `n` is executed as `n` calls of `next`
+    match Proto.natList? ks with
+    | none => "bad-op"
+    | some ks => joinC ((posIterNthSeq sh data ks 0).map fun
+        | none => "x"
+        | some ((r, c), (off, v)) => s!"{r}.{c}:{off}:{v}")
+  | "posnthmut", [ks] =>
+    match Proto.natList? ks with
+    | none => "bad-op"
+    | some ks => joinC ((posIterMutNthSeq sh data.length ks 0).map fun
+        | none => "x"
+        | some ((r, c), off) => s!"{r}.{c}:{off}")
   | "fill", [v] =>
     match v.toNat? with
     | none => "bad-op"
